@@ -28,6 +28,10 @@ def run (args : List String) : Option String :=
   | ["range", ny, nx, ty, tx, bb] => do
     let g ← parseGBT? ny nx ty tx; let b ← parseBBox? bb
     pure (fmtRes (fun (r, c) => s!"{fmtRange r} {fmtRange c}") (rangeFromBBox g b))
+  | ["rangew", ny, nx, ty, tx, W, bb] => do
+    -- box in the CRS of the raster; `W` = pixel-to-world affine
+    let g ← parseGBT? ny nx ty tx; let W ← parseAff? W; let b ← parseBBox? bb
+    pure (fmtRes (fun (r, c) => s!"{fmtRange r} {fmtRange c}") (rangeFromBBoxWorld g W id b))
   | ["tiles", ny, nx, ty, tx, bb] => do
     let g ← parseGBT? ny nx ty tx; let b ← parseBBox? bb
     pure (fmtRes fmtIdxs (tilesFromPixBBox g b))
@@ -56,6 +60,27 @@ def run (args : List String) : Option String :=
     let A ← parseAff? A
     pure (fmtRes (fmtList fun (idx, deps) => s!"{fmtPair idx}={fmtIdxs deps}")
       (gridIntersectLinear d s A))
+  | ["generalr", dny, dnx, dty, dtx, sny, snx, sty, stx, fp, dflags, exts, sflags] => do
+    -- fp: pixel bbox of the source footprint (dst pixels); dflags: verdicts for the dst candidates in order;
+    -- exts / sflags: `|`-separated pixel bboxes (src pixels) / verdict lists for the kept dst tiles in order
+    let d ← parseGBT? dny dnx dty dtx; let s ← parseGBT? sny snx sty stx
+    let fp ← parseBBox? fp; let df ← parseFlags? dflags
+    let ebs ← if exts = "-" then some [] else (exts.splitOn "|").mapM parseBBox?
+    let sfs ← if sflags = "-" then some [] else (sflags.splitOn "|").mapM parseFlags?
+    match candidates d fp with
+    | .error e => pure e.toStr
+    | .ok dc =>
+      let kept := (dc.zip df).filter (fun p => !p.2) |>.map (·.1)
+      let lookup {α} (xs : List ((Int × Int) × α)) (k : Int × Int) : Option α :=
+        (xs.find? (fun p => p.1 == k)).map (·.2)
+      let dDis := fun k => (lookup (dc.zip df) k).getD true
+      let ext := fun k => (lookup (kept.zip ebs) k).getD ⟨0, 0, 0, 0⟩
+      let sDis := fun k s' =>
+        match lookup (kept.zip sfs) k, candidates s (ext k) with
+        | some f, .ok c => (lookup (c.zip f) s').getD true
+        | _, _ => true
+      pure (fmtRes (fmtList fun (idx, deps) => s!"{fmtPair idx}={fmtIdxs deps}")
+        (gridIntersectGeneralR d s fp dDis ext sDis))
   | ["general", dcand, dflags, scands, sflags] => do
     -- dcand: list of dst candidates; dflags: their disjoint verdicts; scands / sflags: for each
     -- kept dst tile (in order) `|`-separated candidate lists / verdict lists
